@@ -71,6 +71,11 @@ func (d *dialer) Close() error {
 		d.redialer.Stop()
 	}
 	d.closed = true
+	// A connection attempt still in progress (a peer that accepted
+	// and then stays silent, say) must not outlive the dialer.
+	if c, ok := d.d.(interface{ Close() error }); ok {
+		_ = c.Close()
+	}
 	return nil
 }
 
